@@ -54,6 +54,23 @@ class Prop(BaseProp):
                             dirlinks=rng.random() < 0.25, follow=rng.random() < 0.5)
             recursive = rng.random() < 0.7
             auto = rng.random() < 0.6
+        if idx < self.NR[self.tier] and rng.random() < 0.35:
+            # every file starts with a definition without doccomment and ends with a declaration that is still waiting for its
+            # definition when the file ends (a test declared without body, a pure virtual member): whatever one file leaves
+            # behind, the next file's page is the page of that file on its own
+            k_ = 0
+            for f_ in sorted(tree.files):
+                if f_.lower().endswith(".cmake") and tree.files[f_] and f_ not in tree.virtual:
+                    k_ += 1
+                    tail = rng.choice(["ct_add_test(NAME pending_t%d)\n" % k_,
+                                       "cpp_class(Pend%d)\n  cpp_member(pure_m Pend%d int)\n  cpp_virtual_member(pure_m)\n" % (k_, k_),
+                                       "cpp_class(Pend%d)\n  cpp_constructor(CTOR Pend%d str)\n" % (k_, k_), ""])
+                    new_t = "function(lead_fn_%d a b)\nendfunction()\n" % k_ + tree.files[f_] + tail
+                    for v_, t_ in list(tree.files.items()):
+                        if t_ is tree.files[f_] and v_ != f_ and v_ in tree.virtual:
+                            tree.files[v_] = new_t      # the same file seen through a followed directory link
+                    tree.files[f_] = new_t
+            res.count("trees_whose_files_end_with_a_waiting_declaration")
         prefix = rng.choice([None, None, "Pfx", "my.pkg"])
         outmode = rng.choice(["abs", "rel", "nested", "abs"])
         order_mode = rng.choice(fsrun.ORDER_MODES[:4])
